@@ -198,10 +198,12 @@ Definition spec_step (w : nat) (dl : N) (s : sp) (o : op) (b : obs) : sp * list 
     else
       (* an ack the specification does not require anything of; whatever it publishes must be a started, newer checkpoint *)
       if o_published b =? 0 then (s4, [])
-      else if (sp_latest s4 <? o_published b) && (o_published b <=? sp_maxcid s4) then
+      else
+        (* nothing of an assembly in use is in flight (the deployment of a new assembly began since the last start):
+           the published checkpoint belongs to a lost assembly *)
         (MkSp (sp_now s4) (sp_seen s4) (sp_reg s4) (sp_pend s4) (sp_pend_latest s4) (sp_cur s4)
-              (o_published b) (sp_maxcid s4) (sp_infl s4) (sp_prev s4), [])
-      else (s4, [16]) in
+              (N.max (sp_latest s4) (o_published b)) (sp_maxcid s4) (sp_infl s4) (sp_prev s4),
+         match sp_infl s4 with None => [105] | Some _ => [16] end) in
   let '(s5, e_ack) :=
     match o with
     | OAckOp n id => after_ack true n id
